@@ -608,7 +608,8 @@ def points_for(terms):
 def gen_equation(r, case, idx):
     name = 'i%d' % idx
     shape = r.choice(['outer', 'outer', 'plain', 'additive', 'additiveV', 'factorV', 'prod_same', 'prod_diff',
-                      'sum_same', 'sum_diff', 'nopattern', 'nopattern', 'excluded', 'pwouter', 'outer_sum_same', 'recip'])
+                      'sum_same', 'sum_diff', 'nopattern', 'nopattern', 'excluded', 'pwouter', 'outer_sum_same', 'recip',
+                      'negpow'])
     V = ['v', 'V']
     P = lambda: lit_or_const(r, case, r.choice(['0.32', '3', '-2.1', '120', '0.0005', '-0.08', '7.5']))   # noqa: E731
     kind, merge = 'pattern', None
@@ -637,6 +638,12 @@ def gen_equation(r, case, idx):
         ast = ['*', ['sw', ['n', repr(thr)], P(), P()], g1]
     elif shape == 'additive':
         ast = ['+', ['*', P(), g1], P()]
+    elif shape == 'negpow':
+        # next to the term: a NEGATIVE POWER other than -1 of something containing exp (a sigmoid squared / cubed in a
+        # denominator); it has no singularity and must come through unchanged
+        U2 = ['+', ['*', ['n', r.choice(SLOPES)], V], ['n', r.choice(['1.6', '-3', '0.5'])]]
+        sig = ['pow', ['+', ['n', '1.0'], ['exp', U2]], r.choice([2, 3])]
+        ast = r.choice([['+', ['*', P(), g1], ['/', P(), sig]], ['/', ['+', g1, P()], sig], ['+', g1, ['/', ['n', '1.0'], sig]]])
     elif shape == 'recip':
         # the term (with an additive constant that keeps the denominator away from zero) in a denominator
         c = lit_or_const(r, case, r.choice(['400', '250.5', '1000']))
